@@ -152,6 +152,65 @@ theorem deps_by_key (fields : List String) (base over : Proc) (d : String × Str
     · exact Or.inr h
     · exact Or.inl ⟨h1, by simp [h2]⟩
 
+private theorem find_filter_ne (l : List (String × String)) (f g : String) (h : g ≠ f) :
+    (l.filter (·.1 ≠ f)).find? (·.1 = g) = l.find? (·.1 = g) := by
+  induction l with
+  | nil => rfl
+  | cons a r ih =>
+    rw [List.filter_cons]
+    by_cases ha : a.1 = f
+    · have hag : ¬ a.1 = g := by rw [ha]; exact Ne.symm h
+      have hd : decide (f = g) = false := by simp [Ne.symm h]
+      simp only [ne_eq, ha, not_true_eq_false, decide_false, Bool.false_eq_true, ↓reduceIte,
+        List.find?_cons, hd]
+      exact ih
+    · simp only [ne_eq, ha, not_false_eq_true, decide_true, ↓reduceIte, List.find?_cons]
+      by_cases hg : a.1 = g
+      · simp [hg]
+      · simp only [hg, decide_false]; exact ih
+
+theorem scalarOf_setScalar (p : Proc) (f v g : String) :
+    scalarOf (setScalar p f v) g = if g = f then v else scalarOf p g := by
+  unfold scalarOf setScalar
+  simp only [List.find?_append]
+  by_cases h : g = f
+  · subst h
+    have : (p.scalars.filter (·.1 ≠ g)).find? (·.1 = g) = none := by
+      simp [List.find?_eq_none]
+    rw [this]; simp [List.find?]
+  · simp only [h, ↓reduceIte]
+    have h2 : List.find? (fun x => decide (x.1 = g)) [(f, v)] = none := by
+      simp [List.find?, Ne.symm h]
+    rw [h2, Option.or_none, find_filter_ne _ _ _ h]
+
+/-- **extends = naming both files, apart from the base's working directories**: merging the child
+    over the base whose working directory was resolved against the base file's directory differs
+    from merging over the unresolved base only in `working_dir`, and there only when the child
+    leaves it unset. -/
+theorem extends_scalar (fields : List String) (dir : String) (b o : Proc) (f : String)
+    (hf : f ∈ fields) (hn : fields.Nodup) :
+    scalarOf (mergeProc fields (resolveProc dir b) o) f =
+      if f = "working_dir" ∧ scalarOf o f = "" then resolveWd dir (scalarOf b f)
+      else scalarOf (mergeProc fields b o) f := by
+  rw [scalar_override _ _ _ _ hf hn, scalar_override _ _ _ _ hf hn]
+  unfold resolveProc
+  rw [scalarOf_setScalar]
+  by_cases h1 : f = "working_dir"
+  · subst h1
+    by_cases h2 : scalarOf o "working_dir" = "" <;> simp [h2]
+  · simp [h1]
+
+theorem extends_rest (fields : List String) (dir : String) (b o : Proc) :
+    (mergeProc fields (resolveProc dir b) o).env = (mergeProc fields b o).env ∧
+    (mergeProc fields (resolveProc dir b) o).deps = (mergeProc fields b o).deps ∧
+    (mergeProc fields (resolveProc dir b) o).entry = (mergeProc fields b o).entry := by
+  simp [mergeProc, resolveProc, setScalar, mergeEnvList]
+
+/-- an absolute working directory of the base is left as it is -/
+theorem resolve_abs (dir wd : String) (h : wd.startsWith "/" = true) (hne : wd ≠ "") : resolveWd dir wd = wd := by
+  simp [resolveWd, h, hne]
+
+
 example : lookupEnv (mergeEnvMap ["A=b=c".toList, "K=1".toList, "E=".toList] ["K= 2 \"x\"".toList]) "A".toList = some "b=c".toList := by decide
 example : lookupEnv (mergeEnvMap ["A=b=c".toList, "K=1".toList] ["K= 2 \"x\"".toList]) "K".toList = some " 2 \"x\"".toList := by decide
 
